@@ -228,6 +228,45 @@ func (g *schemaGen) primNoTime() M {
 	}
 }
 
+// SchemaFixedCases: hand-written schema shapes for the JSON checks only
+// (C06-C08); some carry recorded findings on the encode side, which is why
+// the other consumers of the schema family do not get them.
+func SchemaFixedCases() []Case {
+	var out []Case
+	mk := func(id string, fill func(d *Doc)) {
+		d := NewDoc(id)
+		fill(d)
+		d.Op("/t", "post", M{
+			"requestBody": M{"required": true, "content": JSONContent(Ref("schemas", "Root"))},
+			"responses":   M{"200": Resp("ok", Ref("schemas", "Root")), "default": M{"description": "e"}},
+		})
+		out = append(out, Case{ID: id, Family: "schema", Spec: d.Root, Flags: Flags{Client: true}, Safe: false, Label: map[string]string{"set": id}})
+	}
+	plain := func() M { return Obj([]string{"name"}, M{"name": Prim("string", ""), "nick": Prim("string", "")}) }
+	mk("schema-fixed-allof-plain-ref-then-typed-addl-ref", func(d *Doc) {
+		extra := Obj(nil, M{"x": Prim("integer", "int64")})
+		extra["additionalProperties"] = Prim("integer", "int64")
+		d.Comp("schemas", "Plain", plain())
+		d.Comp("schemas", "Extra", extra)
+		d.Comp("schemas", "Root", M{"allOf": L{Ref("schemas", "Plain"), Ref("schemas", "Extra")}})
+	})
+	mk("schema-fixed-allof-inline-then-addl-true-ref", func(d *Doc) {
+		extra := Obj(nil, M{"x": Prim("integer", "int64")})
+		extra["additionalProperties"] = true
+		d.Comp("schemas", "Extra", extra)
+		d.Comp("schemas", "Root", M{"allOf": L{plain(), Ref("schemas", "Extra")}})
+	})
+	mk("schema-fixed-allof-outer-required-names-ref-member-property", func(d *Doc) {
+		d.Comp("schemas", "Base", Obj(nil, M{"id": Prim("integer", "int64"), "tag": Prim("string", "")}))
+		d.Comp("schemas", "Root", M{"required": L{"id", "tag"}, "allOf": L{Ref("schemas", "Base"), Obj([]string{"name"}, M{"name": Prim("string", "")})}})
+	})
+	mk("schema-fixed-allof-outer-required-names-inline-member-property", func(d *Doc) {
+		d.Comp("schemas", "Base", Obj(nil, M{"id": Prim("integer", "int64")}))
+		d.Comp("schemas", "Root", M{"required": L{"name"}, "allOf": L{Ref("schemas", "Base"), Obj(nil, M{"name": Prim("string", ""), "n": Prim("integer", "int32")})}})
+	})
+	return out
+}
+
 // SchemaCases returns the schema family.
 func SchemaCases(seed int64, nRandom int, withMatrix bool) []Case {
 	var out []Case
